@@ -78,7 +78,7 @@ Definition mtx_eqb (x y : mtx) : bool :=
 (** ** Scripts *)
 Inductive cmd :=
 | CWake (w : Z) | CDropW (w : Z) | CSend (c m : Z) | CClosed (c : Z)          (* any thread *)
-| CNew (w : Z) | CFill (n : Z) | CPoll | CSpawn | CJoin                          (* main *)
+| CNew (w : Z) | CFill (n : Z) | CPoll | CPollIf | CSpawn | CJoin               (* main *)
 | CCNew (c : Z) | CCDrop (c : Z) | CPNew (p : Z) | CPSend (p m : Z) | CPDrop (p : Z)
 | CRecv | CLSend (m : Z) | CCancel | CPanic.                                     (* piped worker *)
 
@@ -688,6 +688,12 @@ Definition begin_cmd (st : wstate) (t : tid) (c : cmd) : wstate * list wevent * 
   | CPoll =>
       if negb (is_main t) then bad
       else (set_cont (set_gnotified (upd_th st t (set_tacc (th st t) [])) false) t [ITopSwap; IRun], [], None)
+  | CPollIf =>
+      (* poll_wake only in response to the poll-waker callback (how an I/O poller drives it) *)
+      if negb (is_main t) then bad
+      else if gnotified st
+           then (set_cont (set_ret (set_gnotified (upd_th st t (set_tacc (th st t) [])) false) t (RBool true)) t [ITopSwap; IRun], [], None)
+           else (st, [], Some (RBool false))
   | CSpawn =>
       if negb (is_main t) then bad
       else (spawn_thread st t (-1) [], [], Some RUnit)
